@@ -90,8 +90,15 @@ func selftest(seed uint64, seeds, par int) int {
 					c := clone(s)
 					c.Sched.Replay, c.Sched.Tape, c.Sched.Mode, c.Sched.Seed = true, tapes.Tape, 0, 12345
 					c.Faults.Replay, c.Faults.Tape, c.Faults.Seed = true, tapes.FaultTape, 999
-					r := b.execRun(dir, 100+w, c, execOpts{})
+					evr := filepath.Join(dir, fmt.Sprintf("w%d.replay.events", w))
+					r := b.execRun(dir, 100+w, c, execOpts{events: evr})
 					n++
+					if os.Getenv("VERIF_SELFTEST_ONLY") != "" {
+						a, _ := os.ReadFile(filepath.Join(dir, fmt.Sprintf("w%d.events", w)))
+						os.WriteFile("/var/tmp/st_gen.events", a, 0644)
+						a, _ = os.ReadFile(evr)
+						os.WriteFile("/var/tmp/st_replay.events", a, 0644)
+					}
 					if r.infra != "" {
 						diffs = append(diffs, "replay infra: "+r.infra)
 					} else if r.res.EventHash != tapes.EventHash || r.res.OutcomeHash != tapes.OutcomeHash {
